@@ -4,14 +4,17 @@
 (* / next_job_batch / complete (harness/moment_h.py, mode "fire") on the   *)
 (* virtual reactor clock, against the property level of MomentFire.        *)
 (* One line per event:                                                     *)
+(*  top level: "cfg":{"start":s,"nodes":{"t0.a":{"kind":..,"events":[..]}}} *)
 (*  {"ev":"Init|Boot|Tick|Advance|Dispatch|Complete|NewTarget",            *)
-(*   "args":{"dt":n,"t":"T1"},                                             *)
-(*   "st":{"up":b,"clock":s,"timers":[s..],"status":"..","nque":n,         *)
-(*         "todo":[..],"exec":[..],"targets":[..],"nbooted":n},            *)
+(*   "args":{"dt":n,"t":"T1","n":"t0.a"},                                  *)
+(*   "st":{"up":b,"clock":s,"timers":[s..],"targets":[..],"nbooted":n,     *)
+(*         "status":{node:".."},"nque":{node:n},"todo":{node:[..]},        *)
+(*         "exec":{node:[..]}},                                            *)
 (*   "obs":{"err":"", "defers":n}}                                         *)
 (* timers = due instants of the reactor's pending delayed calls; exec =    *)
 (* targets of the node's task messages written to worker transports (or    *)
-(* queued for placement) and not answered yet.                             *)
+(* queued for placement) and not answered yet.  A failing clause is        *)
+(* printed with the node it fails for.                                     *)
 (***************************************************************************)
 EXTENDS MomentFire, Json, IOUtils, SequencesExt
 
@@ -21,9 +24,9 @@ VARIABLES tid, l, bad, drift
 tvars == <<fvars, tid, l, bad, drift>>
 
 EvOf(e)  == [k |-> e.k, n |-> e.n, t |-> e.t]
-CfgOf(t) == [kind   |-> Traces[t].cfg.kind,
-             events |-> { EvOf(Traces[t].cfg.events[i]) : i \in DOMAIN Traces[t].cfg.events },
-             start  |-> Traces[t].cfg.start]
+NodeOf(r) == [kind |-> r.kind, events |-> { EvOf(r.events[i]) : i \in DOMAIN r.events }]
+CfgOf(t) == [start |-> Traces[t].cfg.start,
+             nodes |-> [n \in DOMAIN Traces[t].cfg.nodes |-> NodeOf(Traces[t].cfg.nodes[n])]]
 Rec(t, i) == Traces[t].steps[i]
 
 Bind(r) ==
@@ -31,23 +34,23 @@ Bind(r) ==
     /\ up' = r.st.up
     /\ clock' = r.st.clock
     /\ timers' = ToSet(r.st.timers)
-    /\ status' = r.st.status
-    /\ queued' = (r.st.nque > 0)
-    /\ todo' = ToSet(r.st.todo)
-    /\ exec' = ToSet(r.st.exec)
+    /\ status' = [n \in Nodes |-> r.st.status[n]]
+    /\ queued' = [n \in Nodes |-> r.st.nque[n] > 0]
+    /\ todo' = [n \in Nodes |-> ToSet(r.st.todo[n])]
+    /\ exec' = [n \in Nodes |-> ToSet(r.st.exec[n])]
     /\ targets' = ToSet(r.st.targets)
-    /\ booted' = IF r.st.nbooted > 0 THEN BootEv ELSE {}
+    /\ booted' = IF up' THEN UNION { { <<n, e>> : e \in BootEv(n) } : n \in Nodes } ELSE {}
     /\ env' = IF r.ev \in {"Tick", "Advance", "NewTarget"} THEN env - 1 ELSE env
-    /\ lastFire' = IF Fired THEN clock' ELSE lastFire
+    /\ lastFire' = [n \in Nodes |-> IF Fired(n) THEN clock' ELSE lastFire[n]]
 
 Fail(name, ok) == IF ok THEN {} ELSE {name}
 
-StepClauses ==
-         Fail("C20.FireTargets", Fired => (queued' /\ (IF cfg.kind = "analysis" THEN {ALL} ELSE targets') \subseteq todo'))
-    \cup Fail("C20.BootFires",   (~up /\ up' /\ BootEv # {}) => (Fired /\ queued'))
-    \cup Fail("C20.BootOnce",    (Fired /\ (up \/ BootEv = {})) => Justified)
-    \cup Fail("C20.Armed",       Armed')
-    \cup Fail("C20.Recurs",      RecursStep)
+StepClauses(n) ==
+         Fail("C20.FireTargets", FireTargetsStep(n))
+    \cup Fail("C20.BootFires",   BootFiresStep(n))
+    \cup Fail("C20.BootOnce",    BootOnceStep(n))
+    \cup Fail("C20.Armed",       Armed(n)')
+    \cup Fail("C20.Recurs",      RecursStep(n))
 
 (* is the recorded step a step of the implementation-shaped model? *)
 ModelStep(r) ==
@@ -55,7 +58,7 @@ ModelStep(r) ==
       [] r.ev = "Tick"      -> Tick
       [] r.ev = "Advance"   -> Advance(r.args.dt)
       [] r.ev = "Dispatch"  -> Dispatch \/ UNCHANGED <<status, queued, todo, exec, timers>>
-      [] r.ev = "Complete"  -> Complete(r.args.t)
+      [] r.ev = "Complete"  -> Complete(r.args.n, r.args.t)
       [] r.ev = "NewTarget" -> NewTarget
       [] OTHER -> TRUE
 
@@ -63,12 +66,13 @@ TraceInit ==
     /\ tid \in 1 .. Len(Traces)
     /\ l = 1
     /\ cfg = CfgOf(tid)
-    /\ TimedEv \subseteq Specs
+    /\ \A n \in Nodes : TimedEv(n) \subseteq Specs
     /\ LET r == Rec(tid, 1) IN
        /\ up = r.st.up /\ clock = r.st.clock /\ timers = ToSet(r.st.timers)
-       /\ status = r.st.status /\ queued = (r.st.nque > 0)
-       /\ todo = ToSet(r.st.todo) /\ exec = ToSet(r.st.exec) /\ targets = ToSet(r.st.targets)
-    /\ booted = {} /\ lastFire = -1 /\ env = 1000000
+       /\ status = [n \in Nodes |-> r.st.status[n]] /\ queued = [n \in Nodes |-> r.st.nque[n] > 0]
+       /\ todo = [n \in Nodes |-> ToSet(r.st.todo[n])] /\ exec = [n \in Nodes |-> ToSet(r.st.exec[n])]
+       /\ targets = ToSet(r.st.targets)
+    /\ booted = {} /\ lastFire = [n \in Nodes |-> -1] /\ env = 1000000
     /\ bad = {} /\ drift = FALSE
 
 TraceNext ==
@@ -77,9 +81,9 @@ TraceNext ==
     /\ UNCHANGED tid
     /\ LET r == Rec(tid, l + 1) IN
        /\ Bind(r)
-       /\ bad' = StepClauses
+       /\ bad' = UNION { StepClauses(n) : n \in Nodes }
        /\ drift' = ~ModelStep(r)
-       /\ (bad' # {} => PrintT(<<"CLAUSE", Traces[tid].tid, l + 1, r.ev, bad'>>))
+       /\ \A n \in Nodes : StepClauses(n) # {} => PrintT(<<"CLAUSE", Traces[tid].tid, l + 1, r.ev, StepClauses(n), n>>)
        /\ (drift' => PrintT(<<"DRIFT", Traces[tid].tid, l + 1, r.ev>>))
 
 TraceSpec == TraceInit /\ [][TraceNext]_tvars
